@@ -169,4 +169,11 @@ theorem every_issue_has_a_message (env : Env) (hf : Spec.FmtTotal env) (m : Mode
     ∀ i ∈ (Engine.run env Gen.facts m s tag v d).2.sink, i.message ≠ "" :=
   issue_invariants_lift env m _ (Spec.message_ctorInv env hf) s tag v d
 
+/-- every top-level entry point (the `Parse` / `Validate` of every schema kind, eighteen call sites) starts its
+    execution context from the GLOBAL formatter variable — the one `i18n.SetLanguagesErrsMap` and the user
+    replace —, not from the built-in default (regenerated go/ast fact) -/
+theorem entry_points_start_from_global_formatter : ∀ f ∈ Gen.execCtxFormatters, f = "conf.IssueFormatter" := by decide
+
+example : Gen.execCtxFormatters ≠ [] := by decide
+
 end Zog.Props.C11
